@@ -913,3 +913,120 @@ void check_history(History const& h, Problem const& prob, OracleOpts const& opts
 }
 
 }  // namespace vsim
+
+#include "celeritas/user/ActionDiagnostic.hh"
+#include "celeritas/user/SimpleCalo.hh"
+#include "celeritas/user/StepDiagnostic.hh"
+
+namespace vsim
+{
+void check_tallies(History const& h, Problem const& prob, RunResult& out)
+{
+    constexpr int ST_ALIVE_ = 2, ST_KILLED_ = 4;
+    auto bits_ = [](double d) {
+        std::uint64_t u;
+        std::memcpy(&u, &d, sizeof(u));
+        return u;
+    };
+    if (prob.calo)
+    {
+        std::vector<double> expected(prob.calo_volumes.size(), 0.0);
+        for (auto const& f : h.frames)
+        {
+            auto const& pre = f.obs[(int)Point::pre];
+            auto const& post = f.obs[(int)Point::post];
+            if (pre.empty() || post.empty())
+                continue;
+            for (std::size_t s = 0; s < post.size(); ++s)
+            {
+                if (!post[s].active() || post[s].deposit == 0)
+                    continue;
+                for (std::size_t d = 0; d < prob.calo_volumes.size(); ++d)
+                    if (pre[s].volume == prob.calo_volumes[d])
+                        expected[d] += post[s].deposit;
+            }
+        }
+        auto got = prob.calo->calc_total_energy_deposition();
+        out.count("calo_detectors_compared", expected.size());
+        for (std::size_t d = 0; d < expected.size(); ++d)
+        {
+            if (d >= got.size() || bits_(got[d]) != bits_(expected[d]))
+            {
+                std::ostringstream os;
+                os.precision(17);
+                os << "calorimeter tally of detector " << d << " (volume "
+                   << prob.calo_volumes[d] << ") is " << (d < got.size() ? got[d] : -1.0)
+                   << " but the steps that happened deposited " << expected[d];
+                out.violate("C17", "calo-tally-mismatch", "calo-tally-mismatch", os.str());
+            }
+        }
+    }
+    if (prob.action_diag)
+    {
+        std::map<std::pair<std::uint32_t, std::uint32_t>, std::uint64_t> expected;
+        std::uint64_t total = 0;
+        for (auto const& f : h.frames)
+        {
+            for (auto const& s : f.obs[(int)Point::post])
+            {
+                if (s.status == ST_ALIVE_ || s.status == ST_KILLED_)
+                {
+                    ++expected[{s.particle, s.post_action}];
+                    ++total;
+                }
+            }
+        }
+        auto got = prob.action_diag->calc_actions();
+        std::uint64_t got_total = 0;
+        for (std::size_t p = 0; p < got.size(); ++p)
+            for (std::size_t a = 0; a < got[p].size(); ++a)
+            {
+                got_total += got[p][a];
+                auto it = expected.find({(std::uint32_t)p, (std::uint32_t)a});
+                std::uint64_t e = it == expected.end() ? 0 : it->second;
+                if (got[p][a] != e)
+                {
+                    std::string lab = a < prob.action_labels.size() ? prob.action_labels[a] : "?";
+                    out.violate("C17",
+                                "action-diagnostic-mismatch",
+                                "action-diagnostic-mismatch",
+                                "action diagnostic counts " + std::to_string(got[p][a])
+                                    + " steps for particle " + std::to_string(p) + " action '"
+                                    + lab + "' but " + std::to_string(e) + " happened (slots="
+                                    + std::to_string(h.num_slots) + ")");
+                }
+            }
+        out.count("action_diag_steps_compared", total);
+        if (got.empty() && total > 0)
+            out.violate("C17",
+                        "action-diagnostic-mismatch",
+                        "action-diagnostic-mismatch",
+                        "action diagnostic has no data although " + std::to_string(total)
+                            + " steps happened");
+    }
+    if (prob.step_diag)
+    {
+        auto got = prob.step_diag->calc_steps();
+        std::size_t nb = got.empty() ? 0 : got[0].size();
+        std::map<std::pair<std::uint32_t, std::uint32_t>, std::uint64_t> expected;
+        for (auto const& f : h.frames)
+            for (auto const& s : f.obs[(int)Point::post])
+                if (s.status == ST_KILLED_ && nb > 0)
+                    ++expected[{s.particle, std::min<std::uint32_t>(s.num_steps, nb - 1)}];
+        for (std::size_t p = 0; p < got.size(); ++p)
+            for (std::size_t b = 0; b < got[p].size(); ++b)
+            {
+                auto it = expected.find({(std::uint32_t)p, (std::uint32_t)b});
+                std::uint64_t e = it == expected.end() ? 0 : it->second;
+                if (got[p][b] != e)
+                    out.violate("C17",
+                                "step-diagnostic-mismatch",
+                                "step-diagnostic-mismatch",
+                                "step diagnostic counts " + std::to_string(got[p][b])
+                                    + " tracks of particle " + std::to_string(p) + " ending after "
+                                    + std::to_string(b) + " steps but " + std::to_string(e)
+                                    + " did");
+            }
+    }
+}
+}  // namespace vsim
